@@ -61,7 +61,7 @@ SEQ = {
                            'drop_class_in_use', 'names_lifecycle',
                            'subtree_moves', 'joint_overflow', 'usage_views', 'f7_empty_write_unknown_consumer',
                            'f9_unknown_provider_new_consumer'],
-                replay=dict(quick=(4, 30, 2), thorough=(40, 60, 12)),
+                replay=dict(quick=(4, 30, 2), thorough=(40, 60, 12)), gabbi=True,
                 quick=(48, 35), thorough=(1500, 50)),
     'C12': dict(models=['MC_alloc'], weights=W_CONS, configs=True,
                 scenarios=['consumer_lifecycle',
@@ -195,6 +195,24 @@ def run_seq(prop, tier, seed, model=True):
             raise Machinery(str(ex))
         finally:
             replay_pool.close()
+    gabbi_cov = {}
+    if c.get('gabbi') or tier == 'thorough':
+        # the repository's functional test corpus as traces (pv/gabbitrace.py)
+        import multiprocessing as mp
+        from pv import gabbitrace
+        files = sorted(f for f in os.listdir(gabbitrace.GABBITS) if f.endswith('.yaml'))
+        nw = 12
+        try:
+            with mp.get_context('spawn').Pool(nw) as pool:
+                gres = pool.map(gabbitrace.worker, [{'files': files[w::nw]} for w in range(nw)], chunksize=1)
+        except tlc.TLCError as ex:
+            raise Machinery(str(ex))
+        gabbi_cov = {'gabbi_files_run': len(files),
+                     'gabbi_exchanges_judged': sum(r['n'] for r in gres),
+                     'gabbi_exchanges_inside_the_alphabet_of_Apply': sum(r['modelled'] for r in gres)}
+        if gabbi_cov['gabbi_exchanges_inside_the_alphabet_of_Apply'] < 100:
+            raise Machinery('the gabbi corpus produced only %d modelled exchanges' % gabbi_cov['gabbi_exchanges_inside_the_alphabet_of_Apply'])
+        results = list(results) + gres
     nlines = sum(r['n'] for r in results)
     nhist = sum(r['histories'] for r in results)
     if nlines == 0:
@@ -294,6 +312,7 @@ def run_seq(prop, tier, seed, model=True):
         'exhaustive': False,
     }
     cov.update(extra_cov)
+    cov.update(gabbi_cov)
     if not model:
         cov.pop('states')
         cov.pop('transitions')
@@ -654,6 +673,24 @@ def run_cand(prop, tier, seed, model=True):
     n = sum(r['n'] for r in results)
     if n == 0:
         raise Machinery('no query was validated')
+    gabbi_cov = {}
+    if prop in ('C02', 'C03', 'C13'):
+        # the candidate / listing reads of the repository's functional test corpus, in their own fixtures
+        from pv import gabbitrace
+        files = sorted(f for f in os.listdir(gabbitrace.GABBITS) if f.endswith('.yaml'))
+        try:
+            with ctx.Pool(12) as pool:
+                gres = pool.map(gabbitrace.cand_worker, [{'files': files[w::12]} for w in range(12)], chunksize=1)
+        except tlc.TLCError as ex:
+            raise Machinery(str(ex))
+        ng = sum(r['n'] for r in gres)
+        if ng < 50:
+            raise Machinery('the gabbi corpus produced only %d candidate / listing reads inside the alphabet' % ng)
+        gabbi_cov = {'gabbi_candidate_and_listing_reads_judged': ng}
+        for r in gres:
+            r.update({'keys': [], 'claims': 0, 'states': r['files'], 'between': 0, 'sample': []})
+        results = list(results) + gres
+        n += ng
     violations, known = [], []
     keys = set()
     hist = {}
@@ -688,6 +725,7 @@ def run_cand(prop, tier, seed, model=True):
         'samples': results[0]['sample'],
         'exhaustive': False,
     }
+    cov.update(gabbi_cov)
     if not model:
         cov.pop('states')
         cov.pop('transitions')
